@@ -36,11 +36,22 @@ var standinTable = map[string][]struct{ name, file, pkgdir, test, stands, boundQ
 		boundQuick:    "3 scheme spellings x 2 userinfo x 13 hosts (case, IPv4, IPv6 literals, non-ASCII and invalid UTF-8 bytes) x 5 ports x 29 paths (dot segments, escapes of unreserved / reserved / non-ASCII bytes, stray %) x 17 queries, every URL url.Parse accepts (172,380)",
 		boundThorough: "3 scheme spellings x 3 userinfo x 15 hosts x 6 ports x 29 paths x 17 queries x 2 fragments, every URL url.Parse accepts (716,040)",
 	}},
+	"C19": {{
+		name: "index-json-round-trip", file: "c19_refs_roundtrip_test.go.txt", pkgdir: "internal", test: "TestGovcStandinC19",
+		stands:        "json.Unmarshal(json.Marshal(index)) gives back exactly the same references (ResponseRef.UnmarshalJSON and encoding/json are outside the contracts; MarshalJSON is under contract)",
+		boundQuick:    "12 awkward strings (empty, ASCII, quotes/control bytes, valid and invalid UTF-8, text that looks like the escape marker) for ID x Vary x 4 shapes of the resolved map (nil, empty, one, two entries) x 3 timestamps (576 indexes of two references)",
+		boundThorough: "18 such strings x 18 x 4 shapes x 3 timestamps (1296 indexes of two references)",
+	}},
 	"C04": {{
 		name: "header-value-normalisation", file: "c04_normalize_test.go.txt", pkgdir: "internal", test: "TestGovcStandinC04",
 		stands:        "normalizeHeaderValue identifies two values of a nominated request header only up to whitespace, list order and ASCII case (never two values that differ otherwise, e.g. in a byte that is not valid UTF-8), and is idempotent",
 		boundQuick:    "8 fields (one per normalisation class) x every value of length <= 4 over {a, A, b, ',', SP, HTAB, '*', 0xff, 0xfe} (7381 values)",
 		boundThorough: "8 fields (one per normalisation class) x every value of length <= 6 over {a, A, b, ',', SP, HTAB, '*', 0xff, 0xfe} (597871 values)",
+	}, {
+		name: "index-json-round-trip", file: "c19_refs_roundtrip_test.go.txt", pkgdir: "internal", test: "TestGovcStandinC19",
+		stands:        "json.Unmarshal(json.Marshal(index)) gives back exactly the same references (ResponseRef.UnmarshalJSON and encoding/json are outside the contracts; MarshalJSON is under contract)",
+		boundQuick:    "12 awkward strings (empty, ASCII, quotes/control bytes, valid and invalid UTF-8, text that looks like the escape marker) for ID x Vary x 4 shapes of the resolved map (nil, empty, one, two entries) x 3 timestamps (576 indexes of two references)",
+		boundThorough: "18 such strings x 18 x 4 shapes x 3 timestamps (1296 indexes of two references)",
 	}},
 	"C05": {{
 		name: "entry-round-trip", file: "c05_roundtrip_test.go.txt", pkgdir: "internal", test: "TestGovcStandinC05",
@@ -53,6 +64,11 @@ var standinTable = map[string][]struct{ name, file, pkgdir, test, stands, boundQ
 		stands:        "Response.MarshalBinary (httputil.DumpResponse) followed by ParseResponse (http.ReadResponse) reproduces status, every header field value, the exact body bytes, the entry's ID (of any length) and both timestamps; the response handed to MarshalBinary still delivers its body",
 		boundQuick:    "5 statuses x 3 protocol versions x 3 framings x 4 body contents x 6 body sizes (0..4097) x 3 header shapes; ID lengths 23..20,020 bytes and timestamps with nanoseconds in five zones vary along",
 		boundThorough: "5 statuses x 3 protocol versions x 3 framings x 4 body contents x 9 body sizes (0..1 MiB) x 3 header shapes; ID lengths 23..20,020 bytes and timestamps with nanoseconds in five zones vary along",
+	}, {
+		name: "index-json-round-trip", file: "c19_refs_roundtrip_test.go.txt", pkgdir: "internal", test: "TestGovcStandinC19",
+		stands:        "json.Unmarshal(json.Marshal(index)) gives back exactly the same references (ResponseRef.UnmarshalJSON and encoding/json are outside the contracts; MarshalJSON is under contract)",
+		boundQuick:    "12 awkward strings (empty, ASCII, quotes/control bytes, valid and invalid UTF-8, text that looks like the escape marker) for ID x Vary x 4 shapes of the resolved map (nil, empty, one, two entries) x 3 timestamps (576 indexes of two references)",
+		boundThorough: "18 such strings x 18 x 4 shapes x 3 timestamps (1296 indexes of two references)",
 	}},
 }
 
